@@ -98,7 +98,7 @@ MUTANTS = [
      "            except OSError as ex:\n                # E.g., the task removed its own output directory.", "            except ZeroDivisionError as ex:\n                # E.g., the task removed its own output directory.", ["C03"]),
     ("revert-D32-abort-in-include", "parsing/task_loader.py",
      "        except ConductorAbort:\n            # The user interrupted Conductor while the included file was", "        except ZeroDivisionError:\n            # The user interrupted Conductor while the included file was", ["C16"]),
-    ("revert-D33-late-open", "utils/output_handler.py",
+    ("teed-log-goes-nowhere", "utils/output_handler.py",
      "            if self._file is None:\n                self._file = open(self._output_path, \"wb\")\n            return subprocess.PIPE\n",
      "            if self._file is None:\n                self._file = open(\"/dev/null\", \"wb\")\n            return subprocess.PIPE\n", ["C10"]),
     ("loader-no-dup-check", "parsing/task_index.py",
